@@ -211,14 +211,21 @@ def flushMem (s : State) (oi : Nat) (o : Obj) (force : Bool) : State × Option E
         | some d => mergeInto s1 oi o d
       else (s, none)
     | some e =>
-      let fin (s' : State) : State :=
+      -- `finally`: the size no longer counts the entry; a forced flush keeps the entry
+      -- (unmodified from now on), any other flush drops it
+      let fin (s' : State) (e' : Entry) : State :=
         let s2 := if e.modified then { s' with size := s'.size - 1 } else s'
         if !force then s2.delEntry o.res
-        else s2.setEntry o.res { e with fmeta := s2.stat o.res, modified := false }
+        else s2.setEntry o.res { e' with modified := false }
       if e.modified then
-        if e.fmeta ≠ s.stat o.res then (fin s, some (.other "MetadataError"))
-        else (fin (saveToResource s o), none)
-      else (fin s, none)
+        if e.fmeta ≠ s.stat o.res then (fin s e, some (.other "MetadataError"))
+        else
+          -- self._data = cached_data["contents"]; self._save_to_resource();
+          -- if force: metadata := metadata of the file just written
+          let o' := { o with cell := e.cell }
+          let s1 := saveToResource (s.setObj oi o') o'
+          (fin s1 (if force then { e with fmeta := s1.stat o.res } else e), none)
+      else (fin s e, none)
   else
     -- still buffered and not forced: stop sharing by rebuilding the data from scratch
     let base := (s.root o).toBase
